@@ -73,6 +73,19 @@ def run(run):
     places["nested-invoke-loop"] = {
         "module_src": "local e = {}\nfunction e.main(frame) while true do local x = frame:preprocess('{{#invoke:hangdep2|main}}') end end\nreturn e",
         "extra": {"hangdep2": "local e = {}\nfunction e.main(frame) " + LOOP + " end\nreturn e"}}
+    # the non-terminating invocation comes on the same page (same expand call) right after an invocation that ended in one
+    # of the ways an invocation can end
+    enders = {"undecodable-result": ("{{#invoke:ender|main}}", "local e = {}\nfunction e.main(frame) return 'caf' .. string.char(233) end\nreturn e"),
+              "no-such-function": ("{{#invoke:ender|nofn}}", "local e = {}\nreturn e"),
+              "load-error": ("{{#invoke:ender|main}}", "error('while loading')"),
+              "runtime-error": ("{{#invoke:ender|main}}", "local e = {}\nfunction e.main(frame) error('boom') end\nreturn e"),
+              "non-string-result": ("{{#invoke:ender|main}}", "local e = {}\nfunction e.main(frame) return {1} end\nreturn e"),
+              "no-such-module": ("{{#invoke:nomodule|main}}", "return {}")}
+    for nm, (call, src) in enders.items():
+        if quick and nm in ("runtime-error", "non-string-result"):
+            continue
+        places["same-page-after-" + nm] = {"first": call + " {{#invoke:hang|main}}", "extra": {"ender": src},
+                                           "module_src": "local e = {}\nfunction e.main(frame) " + LOOP + " end\nreturn e"}
     for name, spec in places.items():
         cases.append(dict(spec, body="return 'unused'", timeout=1, followups=FOLLOW[:2] if quick else FOLLOW, _timeout=13,
                           b="tight", w="place:" + name))
